@@ -208,8 +208,10 @@ def tv(t: Term, known: dict[Term, bool]) -> bool | None:
                 return None
         if op in ("is", "eq") and (is_const(b, None) or is_const(a, None)):
             other = a if is_const(b, None) else b
-            if other[0] in ("tuple", "list", "set", "dict", "fstr", "func", "lambda", "comp", "bin") or (other[0] == "const" and other[1] is not None):
+            if other[0] in ("tuple", "list", "set", "dict", "fstr", "func", "lambda", "comp", "bin", "new") or (other[0] == "const" and other[1] is not None):
                 return False
+            if other[0] == "fresh" and str(other[2]).rsplit(".", 1)[-1][:1].isupper():
+                return False  # the result of a constructor call (CapWords callee) is an object, never None
     if t in known:
         return known[t]
     if tag in ("tuple", "list", "set") and len(t) > 1 and not any(isinstance(x, tuple) and x and x[0] == "star" for x in t[1:]):
